@@ -88,8 +88,13 @@ def gen_history(rng):
                     chain.append(rng.choice(["K", "U", "U", "G", "GK", "GU", "HV"]))
                 chain.append(rng.choice(pool) if rng.chance(4, 5) else rng.choice([0, 1, 0x5000, 0xFFFFFFFF81000010, rng.below(1 << 47)]))
             recs.append(["sample", pid, tick(True), rng.choice(pool), 1 if rng.chance(1, 8) else 0, chain])
-        elif r < 88:
+        elif r < 86:
             recs.append(["exec", pid, tick()])
+        elif r < 88 and len(live) > 1:
+            # a FORK record naming a pid that is already known (pid reuse without a recorded EXIT): the parent's mappings are adopted again
+            pp = rng.choice([x for x in live if x != pid])
+            recs.append(["fork", pid, pp, tick()])
+            addrs[pid] = list(addrs.get(pid, [])) + list(addrs.get(pp, []))
         elif r < 93:
             recs.append(["tfork", pid, pid + 1000 + rng.below(5), tick()])
         elif r < 97 and len(live) > 1:
